@@ -92,7 +92,10 @@ func sharedProvider(can, kind string) server.ServiceMethod[ipld.Builder] {
 	if p, ok := providers[key]; ok {
 		return p
 	}
-	desc := (&World{Can: can}).descriptor(&Obs{})
+	// kind "...+didwith": the capability reads its resource with schema.DIDString()
+	didWith := strings.HasSuffix(kind, "+didwith")
+	kind = strings.TrimSuffix(kind, "+didwith")
+	desc := (&World{Can: can, DIDWith: didWith}).descriptor(&Obs{})
 	h := func(cap ucan.Capability[Cav], inv invocation.Invocation, ctx server.InvocationContext) (ipld.Builder, fx.Effects, error) {
 		cur := currentBatch.Load()
 		if cur != nil && cur.r != nil {
